@@ -138,6 +138,14 @@ func main() {
 			p = &properties[i]
 		}
 	}
+	if p == nil && *prop == "ALL" { // debugging aid: every registered rule
+		var rn []string
+		for n := range rules {
+			rn = append(rn, n)
+		}
+		sort.Strings(rn)
+		p = &Property{ID: "ALL", Rules: rn, Explanation: "all rules (debugging)"}
+	}
 	if p == nil {
 		fmt.Fprintf(os.Stderr, "unknown property %q\n", *prop)
 		os.Exit(2)
